@@ -15,6 +15,10 @@ Local Open Scope N_scope.
 Theorem eh_pe_valid_all : forall e, e < 256 -> pe_is_valid e = valid_spec e.
 Proof. exact pe_valid_all_lem. Qed.
 
+Example eh_pe_valid_instance :
+  27 < 256 /\ pe_is_valid 27 = true /\ pe_is_valid 255 = true /\ pe_is_valid 85 = false /\ pe_is_valid 96 = false.
+Proof. repeat split; vm_compute; reflexivity. Qed.
+
 (* format / application / indirect are the three bit fields of the byte, omit is 0xff *)
 Theorem eh_pe_decomposition : forall e, e < 256 ->
   pe_format e = fmt_of e /\ pe_application e = app_of e /\
@@ -65,6 +69,13 @@ Theorem pointer_roundtrip : forall dbg be enc pp o v rest ind a,
   parse_encoded_pointer dbg be enc pp (mkrd o (enc_value (fmt_of enc) (pp_asz pp) be v ++ rest))
   = Ok (mkptr ind a, mkrd (o + nlen (enc_value (fmt_of enc) (pp_asz pp) be v)) rest).
 Proof. exact pep_enc. Qed.
+
+Example encoded_value_roundtrip_instance :
+  (* sleb128 of -2^63 (ten bytes) *)
+  let pp := mkpp (mksb None None None) None 8 in
+  asz_ok (pp_asz pp) /\ fmt_valid (pe_format 9) = true /\ value_fits (pe_format 9) 8 (2 ^ 63) = true /\
+  length (enc_value (pe_format 9) 8 false (2 ^ 63)) = 10%nat.
+Proof. cbv zeta. repeat split; try (vm_compute; reflexivity). right; right; right; reflexivity. Qed.
 
 Example pointer_roundtrip_instance :
   (* DW_EH_PE_pcrel|sdata4 with value -16 at offset 8 of a section loaded at 0x1000 *)
@@ -298,6 +309,12 @@ Proof. exact tbl_all_safe_lem. Qed.
 Theorem table_iter_stops_after_error : forall dbg hb h st e st',
   tbl_next dbg hb h st = Ok (SErr e, st') -> tbl_next dbg hb h st' = Ok (SNone, st').
 Proof. exact tbl_next_stops. Qed.
+
+Example table_iter_stops_after_error_instance :
+  (* fde_count 2, but only one byte of table *)
+  exists st', tbl_next true no_bases (mkhdr 8 false (Direct 0) 2 3 (mkrd 12 [n2b 7])) (mkrd 12 [n2b 7], 2)
+              = Ok (SErr EUnexpectedEof, st').
+Proof. eexists. vm_compute. reflexivity. Qed.
 
 Theorem table_nth_total : forall dbg hb h n, asz_ok (h_asz h) ->
   tbl_nth dbg hb h n <> Panic /\ tbl_nth dbg hb h n <> OutOfFuel.
